@@ -264,6 +264,17 @@ def standin_dofs(ctx):
 
 
 UNITS["standin/dofs"] = standin_dofs
+def standin_periodic(ctx):
+    import time
+    from skv import core
+    t0 = time.time()
+    r = core.run_native("standin_mesh.py", dict(what="periodic", seed=ctx.seed, tier=ctx.tier), timeout=3000)
+    ctx.standin("gap-free numbering on periodic tensor meshes for every subset of periodic directions", r["bound"], r["cases"], r["failures"], samples=r["samples"], time_s=time.time() - t0)
+
+
+UNITS["standin/periodic"] = standin_periodic
+
+
 def basis_wiring(ctx):
     """AbstractBasis.__init__: the numbering of a basis is Dofs(mesh, elem) for exactly its own mesh and element, or the caller's dofs object"""
     import skfem as fem
